@@ -16,18 +16,21 @@ From LV Require Import Model.Base Model.Template Model.Eval Model.Derived Model.
 Notation evalN u fuel := (eval unit nc_find nc_store cfg_nc u fuel (fun _ _ => true)).
 Notation keysN u fuel := (keys unit nc_find nc_store cfg_nc u fuel (fun _ _ => true)).
 
-(** First sentence of the property: for any graph (of the fragment) and ANY finite sequence of
-    operations evaluated against one long-lived instance of the graph — every cache shared along
-    the sequence, whatever was evaluated earlier — each evaluation (and each validation and key
-    inspection) returns the value, or fails, exactly as the same graph does with caching
-    switched off for that dictionary.  [run_hist] threads the real memo store through the history;
-    [ref_op] is the cache-free reference, each operation on its own.  Hypotheses ([hist_ok]), all
-    about the cache-free semantics: each cache id is used with one cached expression ([coh]);
-    each dictionary of the history is well formed and, for every cached expression, clean
-    ([clean_at]: present options read are reported by keys() — the zones of D1/D3/D4/D9/D19 are
-    excluded), free of stored generators (D21), and C10's agreement holds there as far as Cached
-    relies on it ([agree_at]: when keys() fails, evaluate and validate fail alike; what evaluates
-    also validates).  Holds for every switch configuration [cfg] and every ghost oracle. *)
+(** First sentence of the property: for any graph (of the covered expressions) and ANY finite
+    sequence of operations evaluated against one long-lived instance of the graph — every cache
+    shared along the sequence, whatever was evaluated earlier — each evaluation (and each
+    validation and key inspection) returns the value, or fails, exactly as the same graph does
+    with caching switched off for that dictionary.  [run_hist] threads the real memo store
+    through the history; [ref_op] is the cache-free reference, each operation on its own.
+    Hypothesis [hist_ok]: each operation's expression is covered for the operation's dictionary
+    ([scoh], all about the cache-free semantics): every constructor except Map, Template nodes,
+    AllOptions, option domains and effects; pre-set / default wrappers hand their sub-expression
+    the overlaid dictionary; each cache id is used with one cached expression, which is in [frag];
+    and every dictionary that reaches a cache site is [okd] — well formed and, for every cached
+    expression, clean ([clean_at]: present options read are reported by keys(); the zones of
+    D1/D3/D4/D9/D19 are excluded), free of stored generators (D21) and satisfying C10's agreement
+    as far as Cached relies on it ([agree_at]).  Holds for every switch configuration [cfg] and
+    every ghost oracle. *)
 Theorem C01_history_transparent : forall u fuel cfg site_ok sites h,
   hist_ok u fuel sites h ->
   run_hist u fuel cfg site_ok h [] = map (ref_op u fuel) h.
@@ -42,8 +45,8 @@ Theorem C01_history_transparent_from_sound_store : forall u fuel cfg site_ok sit
 Proof. exact history_transparent. Qed.
 Print Assumptions C01_history_transparent_from_sound_store.
 
-Theorem C01_one_step_simulation : forall u fuel cfg site_ok sites e,
-  frag e = true -> coh sites e -> SimAll u fuel cfg site_ok sites e.
+Theorem C01_one_step_simulation : forall u fuel cfg site_ok sites e (D : dict -> Prop),
+  scoh u fuel sites e D -> SimAll u fuel cfg site_ok sites e D.
 Proof. exact sim_all. Qed.
 Print Assumptions C01_one_step_simulation.
 
@@ -92,43 +95,53 @@ Example C01_hypotheses_satisfiable :
   fingerprintN u0 10 e_ok o2 = Ok [(kA, JInt 1); (kB, JInt 9)] /\ o1 <> o2.
 Proof. vm_compute. repeat split; congruence. Qed.
 
-(** a history on one long-lived cached node that satisfies [hist_ok]: a miss, a hit under a
-    dictionary that differs in an unrelated key and in key order, a miss for another dispatch
-    value, a failing evaluation (B missing), and the first dictionary again *)
+(** a history on one long-lived dataset-shaped node — default options {B: 9} overlaid by the
+    caller overlaid by pre-set options {Z: 1}, around the cache site — that satisfies the
+    hypotheses: a miss, a hit under a dictionary that differs in an unrelated key and in key
+    order, a miss for another dispatch value, a hit where B comes from the defaults, and validate
+    / keys operations in between *)
 Definition sites0 (c : N) : option expr := if N.eqb c 1 then Some e_ok else None.
+Definition dflt0 : dict := [(SName 8, JInt 9)].
+Definition pre0 : dict := [(SName 12, JInt 1)].
+Definition ds0 : expr := EWith false dflt0 (EWith true pre0 (ECached (CMem 1) e_ok)).
 Definition o3 : dict := [(SName 7, JInt 2)].
 Definition o4 : dict := [(SName 7, JInt 1)].
+Definition tops : list dict := [o1; o2; o3; o4].
+Definition mid (o : dict) : dict := with_opts false dflt0 o.
+Definition inner (o : dict) : dict := with_opts true pre0 (mid o).
 Definition h0 : list hop :=
-  [HEval (ECached (CMem 1) e_ok) o1; HEval (ECached (CMem 1) e_ok) o2; HKeys (ECached (CMem 1) e_ok) o2;
-   HEval (ECached (CMem 1) e_ok) o3; HEval (ECached (CMem 1) e_ok) o4; HValidate (ECached (CMem 1) e_ok) o1;
-   HEval (ECached (CMem 1) e_ok) o1].
+  [HEval ds0 o1; HEval ds0 o2; HKeys ds0 o2; HEval ds0 o3; HEval ds0 o4; HValidate ds0 o1; HEval ds0 o1].
 
-Lemma okd0 o : In o [o1; o2; o3; o4] -> okd u0 10 sites0 o.
+(** the dictionaries that reach the cache site are clean for the cached expression *)
+Lemma okd0 o : In o (map inner tops) -> okd u0 10 sites0 o.
 Proof.
   intros Ho. split.
-  - repeat (destruct Ho as [<-|Ho]; [reflexivity|]). destruct Ho.
+  - cbn in Ho. repeat (destruct Ho as [<-|Ho]; [reflexivity|]). destruct Ho.
   - intros c b Hs. unfold sites0 in Hs. destruct (N.eqb c 1); [|discriminate]. inversion Hs; subst b.
-    assert (G : forall o0, In o0 [o1; o2; o3; o4] -> site_clean u0 10 e_ok o0).
-    { intros o0 H0. repeat (destruct H0 as [<-|H0]; [
+    cbn in Ho.
+    repeat (destruct Ho as [<-|Ho]; [
         split; [vm_compute; reflexivity|];
         split; [split; [|split]; intros; match goal with H : _ = _ |- _ => vm_compute in H end;
                 try discriminate; match goal with H : _ = _ |- _ => inversion H; subst end; vm_compute; reflexivity
                |intros v H; vm_compute in H; try discriminate; inversion H; reflexivity] |]).
-      destruct H0. }
-    apply G. exact Ho.
+    destruct Ho.
+Qed.
+
+Lemma scoh0 o : In o tops -> scoh u0 10 sites0 ds0 (eq o).
+Proof.
+  intros Ho. cbn [ds0 scoh]. split; [reflexivity|]. split; [|split; [cbn; repeat split; reflexivity|reflexivity]].
+  intros o' (o1' & (o0 & <- & ->) & ->). apply okd0. apply (in_map inner tops o Ho).
 Qed.
 
 Example C01_history_hypotheses_satisfiable :
   hist_ok u0 10 sites0 h0 /\
   run_hist u0 10 cfg0 (clean_at u0 10) h0 [] =
     [OEval (Ok (VJ (JInt 9))); OEval (Ok (VJ (JInt 9))); OKeys (Ok [kB; kA]); OEval (Ok (VJ (JInt 5)));
-     OEval (Err (CKey kB) true); OValidate (Ok tt); OEval (Ok (VJ (JInt 9)))].
+     OEval (Ok (VJ (JInt 9))); OValidate (Ok tt); OEval (Ok (VJ (JInt 9)))].
 Proof.
   split; [|vm_compute; reflexivity].
   intros p Hp. unfold h0 in Hp.
-  repeat (destruct Hp as [<-|Hp];
-    [split; [reflexivity|split; [cbn; repeat split; reflexivity|apply okd0; cbn; tauto]]|]).
-  destruct Hp.
+  repeat (destruct Hp as [<-|Hp]; [apply scoh0; cbn; tauto|]). destruct Hp.
 Qed.
 
 (** D19: the cached coalesce over a switch whose dispatch has a default.  {A:1}: member 1 reads
